@@ -14,8 +14,8 @@ labels of 1..63 bytes without '.', the returned offset lies inside the message; 
 and parse paths advance to the same offsets whenever both succeed; an accepted name re-packs and
 re-unpacks to itself; an accepted message is well formed in the sense of C36, hence re-packs and
 re-unpacks to an equal message (equal up to the `Length` header fields, as in the package's own
-FuzzUnpackPack) - exactly without compression, and up to the pointer-budget finding `ptr-depth`
-with `Message.Pack`'s compression (`repack_full_false`, `repack_holds_partial`).
+FuzzUnpackPack), with `Message.Pack`'s compression and without (`repack_holds`; false before the
+`ptr-depth` repair, the old witness `deepBytes` is kept as an example).
 The `Parser` methods and `Message.Unpack` share one model (`Unpack` is defined through the
 Parser in Go, and the typed `XResource` methods call the same `unpackX` functions); their
 agreement on the real code is checked by the Go-side oracle.
@@ -56,8 +56,8 @@ theorem unpackName_canonical (msg : Bytes) (off : Nat) (n : Bytes) (o : Nat)
 /-- **Accepted names re-pack and re-unpack to themselves.** -/
 theorem name_repack_stable (msg : Bytes) (off : Nat) (n : Bytes) (o : Nat)
     (h : unpackName msg off = .ok (n, o)) :
-    ∃ bs, packName n 0 none = .ok (bs, none) ∧ unpackName bs 0 = .ok (n, bs.length) := by
-  rcases C36.name_roundtrip_nocomp n 0 (unpackName_canonical msg off n o h) with ⟨bs, hp, hu⟩
+    ∃ bs, packName n [] none = .ok (bs, none) ∧ unpackName bs 0 = .ok (n, bs.length) := by
+  rcases C36.name_roundtrip_nocomp n [] (unpackName_canonical msg off n o h) with ⟨bs, hp, hu⟩
   refine ⟨bs, hp, ?_⟩
   simpa using hu [] []
 
@@ -584,24 +584,20 @@ theorem unpack_accepts_wellformed (b : Bytes) (m : Message) (hb : BytesWF b)
     (hu : unpackMessage b = .ok m) : WFMessage m ∧ TypesConsistent m :=
   unpackMessage_wf hb hu
 
-/-- C37, re-pack clause at full strength (for `Message.Pack`). FALSE (`repack_full_false`). -/
+/-- C37, re-pack clause at full strength (for `Message.Pack`). -/
 def RepackStatement : Prop :=
   ∀ (b : Bytes) (m : Message) (b' : Bytes), BytesWF b → unpackMessage b = .ok m →
     packMessage m = .ok b' → ∃ m', unpackMessage b' = .ok m' ∧ eraseLens m' = eraseLens m
 
-/-- **Re-pack stability, what holds**: an accepted message that `Pack` packs (it does unless a
-decompressed body exceeds 65535 bytes) unpacks again to an equal message, or `Unpack` fails with
-`errTooManyPtr` (finding `ptr-depth`). -/
-theorem repack_holds_partial (b : Bytes) (m : Message) (b' : Bytes) (hb : BytesWF b)
-    (hu : unpackMessage b = .ok m) (hp : packMessage m = .ok b') :
-    (∃ m', unpackMessage b' = .ok m' ∧ eraseLens m' = eraseLens m) ∨
-      unpackMessage b' = .error .tooManyPtr := by
+/-- **Re-pack stability**: an accepted message that `Pack` packs (it does unless a body with a
+decompressed SVCB target exceeds 65535 bytes) unpacks again to an equal message. -/
+theorem repack_holds : RepackStatement := by
+  intro b m b' hb hu hp
   rcases unpackMessage_wf hb hu with ⟨hwf, ht⟩
-  rcases C36.message_holds_partial m b' hwf hp with ⟨l1, l2, l3, h1, h2, h3, h⟩ | h
-  · exact Or.inl ⟨_, h, eraseLens_norm m l1 l2 l3 ht h1 h2 h3⟩
-  · exact Or.inr h
+  rcases C36.message_roundtrip m b' hwf hp with ⟨l1, l2, l3, h1, h2, h3, h⟩
+  exact ⟨_, h, eraseLens_norm m l1 l2 l3 ht h1 h2 h3⟩
 
-/-- Without compression the re-pack clause holds exactly. -/
+/-- The same for a re-pack without compression. -/
 theorem repack_nocomp (b : Bytes) (m : Message) (b' : Bytes) (hb : BytesWF b)
     (hu : unpackMessage b = .ok m) (hp : packMessageWith m none = .ok b') :
     ∃ m', unpackMessage b' = .ok m' ∧ eraseLens m' = eraseLens m := by
@@ -609,19 +605,58 @@ theorem repack_nocomp (b : Bytes) (m : Message) (b' : Bytes) (hb : BytesWF b)
   rcases C36.message_roundtrip_nocomp m b' hwf hp with ⟨l1, l2, l3, h1, h2, h3, h⟩
   exact ⟨_, h, eraseLens_norm m l1 l2 l3 ht h1 h2 h3⟩
 
-/-- the twelve-nested-questions message, packed without compression: `Unpack` accepts it … -/
+/-- the old witness of finding `ptr-depth`: the twelve-nested-questions message, packed without
+compression; `Unpack` accepts it … -/
 def deepBytes : Bytes := (packMessageWith C36.deepMessage none).toOption.getD []
 
 theorem deepBytes_wf : BytesWF deepBytes := by unfold BytesWF; decide +kernel
 
 theorem deepBytes_accepted : unpackMessage deepBytes = .ok C36.deepMessage := by decide +kernel
 
-/-- … **finding `ptr-depth`**: but its re-pack does not unpack. -/
-theorem repack_full_false : ¬ RepackStatement := by
-  intro h
-  rcases C36.deepMessage_fails with ⟨b', hp, hu⟩
-  rcases h deepBytes C36.deepMessage b' deepBytes_wf deepBytes_accepted hp with ⟨m', hm, _⟩
-  rw [hu] at hm
-  cases hm
+/-- … and its re-pack (compression on) now unpacks to the same message. -/
+example : ∃ b' m', packMessage C36.deepMessage = .ok b' ∧ unpackMessage b' = .ok m' ∧
+    eraseLens m' = eraseLens C36.deepMessage := by
+  rcases C36.deepMessage_ok with ⟨b', hp, _⟩
+  rcases repack_holds deepBytes C36.deepMessage b' deepBytes_wf deepBytes_accepted hp with ⟨m', h1, h2⟩
+  exact ⟨b', m', hp, h1, h2⟩
+
+/-- OPT options stay inside their record (the `repack-ResTooLong` repair): an accepted OPT body
+re-packs to at most the record's declared Length. -/
+theorem optLoop_within (msg : Bytes) (e : Nat) : ∀ (fuel off : Nat) (os : List (Nat × Bytes)),
+    optLoop msg e fuel off = .ok os → off ≤ e → off + (packOpts os).length ≤ e := by
+  intro fuel
+  induction fuel with
+  | zero => intro off os h; simp [optLoop] at h
+  | succ fuel ih =>
+    intro off os h hle
+    unfold optLoop at h
+    split at h
+    · split at h
+      · simp at h
+      · rename_i code off1 h1
+        split at h
+        · simp at h
+        · rename_i l off2 h2
+          have b1 := u16At_off h1
+          have b2 := u16At_off h2
+          split at h
+          · simp at h
+          · rename_i hin
+            split at h
+            · simp at h
+            · rename_i hlen
+              split at h
+              · rename_i os' hrec
+                simp at h
+                subst h
+                have := ih _ _ hrec (by omega)
+                have hl : ((msg.drop off2).take l).length = l := by
+                  rw [List.length_take, List.length_drop]; omega
+                simp [packOpts, u16, hl] at this ⊢
+                omega
+              · simp at h
+    · simp at h
+      subst h
+      simp [packOpts]; omega
 
 end NetVerif.Proofs.C37
